@@ -478,6 +478,542 @@ Proof.
         apply Z.leb_le in E1. apply Z.ltb_lt in E2. unfold in_blk, p0 in *. lia.
       * apply (H6 m p v); auto. now rewrite E.
     + rewrite iupd_other in Hm' by auto. apply (H6 m' p v); auto.
-  - intros _. rewrite Hwf. split; [|lia]. replace (fget _ f) with (fget s f) by reflexivity.
-    rewrite Hd. discriminate.
+  - intros _. lia.
+Qed.
+
+(* the invariant looks at the ideal store pointwise only *)
+Definition ideal_eq (I J : ideal) : Prop :=
+  forall g, match I g, J g with
+            | Some m, Some m' => forall p, m p = m' p
+            | None, None => True
+            | _, _ => False
+            end.
+Lemma ideal_eq_refl I : ideal_eq I I.
+Proof. intros g. destruct (I g); auto. Qed.
+Lemma ideal_eq_sym I J : ideal_eq I J -> ideal_eq J I.
+Proof. intros H g. specialize (H g). destruct (I g), (J g); auto. Qed.
+Lemma ideal_eq_trans I J K : ideal_eq I J -> ideal_eq J K -> ideal_eq I K.
+Proof. intros H1 H2 g. specialize (H1 g). specialize (H2 g). destruct (I g), (J g), (K g); auto; try tauto.
+  intros p. now rewrite H1. Qed.
+
+Lemma Inv_ext s I J : ideal_eq I J -> Inv s I -> Inv s J.
+Proof.
+  intros HE HI.
+  assert (Hs : forall g m', J g = Some m' -> exists m, I g = Some m /\ forall p, m p = m' p).
+  { intros g m' Hm'. specialize (HE g). rewrite Hm' in HE. destruct (I g) as [m|]; [|tauto]. eauto. }
+  destruct HI as [H1 H2 H3 H4 H5 H6 H7 H8 H9]. constructor; auto.
+  - intros g. rewrite <- H1. specialize (HE g). destruct (I g), (J g); try tauto; split; discriminate.
+  - intros g m' d p v Hm' Hg Hp. destruct (Hs _ _ Hm') as (m & Hm & Hmm). rewrite <- Hmm in Hp. eauto.
+  - intros m' p v Hm' Hb Hp. destruct (Hs _ _ Hm') as (m & Hm & Hmm). rewrite <- Hmm in Hp. eauto.
+  - intros m' p v Hm' Hb Hp. destruct (Hs _ _ Hm') as (m & Hm & Hmm). rewrite <- Hmm in Hp. eauto.
+Qed.
+
+Lemma store_write_nil m p0 p : store_write m p0 [] p = m p.
+Proof. unfold store_write, lenZ; simpl. destruct (Z.leb_spec p0 p), (Z.ltb_spec p (p0 + 0)); simpl; auto; lia. Qed.
+
+Lemma reset_wr_inv s I : Inv s I -> flush_wr (c_ s) <= 0 ->
+  Inv (with_cache s (set_flush (set_wr_id (c_ s) (-2) (-2)) (-2))) I.
+Proof.
+  intros HI Hc. destruct HI as [H1 H2 H3 H4 H5 H6 H7 H8 H9].
+  constructor; cbn [c_ with_cache set_flush set_wr_id last_wr_block last_wr_file flush_wr last_rd_block
+                    last_rd_file rd_buf wr_buf num_in_rd files]; auto; try lia.
+  - intros g m d p v Hm Hg Hp. destruct (H4 g m d p v Hm Hg Hp) as [Hp0 [(Hx & _)|Hd]]; [lia|auto].
+  - intros m p v Hm. assert (I (-2) = None) by (apply H1; reflexivity). congruence.
+Qed.
+Lemma reset_rd_inv s I : Inv s I -> Inv (with_cache s (reset_rd (c_ s))) I.
+Proof.
+  intros HI. destruct HI as [H1 H2 H3 H4 H5 H6 H7 H8 H9].
+  constructor; cbn [with_cache reset_rd c_ rd_buf wr_buf last_rd_block last_rd_file num_in_rd
+                    last_wr_block last_wr_file flush_wr files]; auto.
+  intros m p v Hm. assert (I (-1) = None) by (apply H1; reflexivity). congruence.
+Qed.
+
+Definition write_post (I : ideal) (f : Z) (r : res) : Prop :=
+  (r = RUnit /\ I f <> None) \/ (r = RErr ADF_FILE_NOT_OPENED /\ I f = None).
+
+Lemma write_file_inv s I f b o data :
+  Inv s I -> safe_step s (OWrite f b o data) = true ->
+  Inv (snd (write_file s f b o data)) (ideal_step I (OWrite f b o data)) /\
+  write_post I f (fst (write_file s f b o data)) /\
+  (forall g, fget (snd (write_file s f b o data)) g = None <-> fget s g = None) /\
+  (data = [] -> fget s f <> None -> flush_wr (c_ (snd (write_file s f b o data))) <= 0).
+Proof.
+  intros HI Hsafe. pose proof BLK_val as HB. pose proof (lenZ_nonneg data) as Hl0.
+  cbn [safe_step] in Hsafe. apply andb_true_iff in Hsafe. destruct Hsafe as [Hsafe Hhole].
+  apply andb_true_iff in Hsafe. destruct Hsafe as [Hb Ho]. apply Z.leb_le in Hb. apply Z.leb_le in Ho.
+  unfold write_file. cbn [ideal_step].
+  destruct (fget s f) as [d0|] eqn:Hd0.
+  2: { assert (Hn : I f = None) by (now apply (inv_open _ _ HI)). rewrite Hn. cbn [fst snd].
+       split; auto. split; [right; auto|]. split; [tauto|]. intros _ Hx. congruence. }
+  pose proof (fget_nonneg _ _ _ Hd0) as Hf.
+  destruct (I f) as [m|] eqn:Hm.
+  2: { apply (inv_open _ _ HI) in Hm. congruence. }
+  set (e := b + (o + lenZ data) / BLK + 1).
+  assert (He : b <= e) by (unfold e; lia).
+  pose proof (inval_rd_inv s I f b e HI) as HI0.
+  set (s0 := with_cache s (inval_rd (c_ s) f b e)) in *.
+  destruct (inval_rd_wr (c_ s) f b e) as (W1 & W2 & W3 & W4).
+  destruct (flush_wr_buffer_spec s0 I f b o (lenZ data) e HI0)
+    as (s1 & Hfl & HI1 & Hdom & R1 & R2 & R3 & R4 & R5 & Hcase).
+  rewrite Hfl.
+  assert (Hdom0 : forall g, fget s1 g = None <-> fget s g = None) by (intros g; rewrite Hdom; reflexivity).
+  destruct (Z.eqb_spec (lenZ data) 0) as [Hz|Hnz].
+  { (* just a buffer flush *)
+    cbn [fst snd]. split.
+    - eapply Inv_ext; [|exact HI1]. intros g. unfold iupd. destruct (Z.eqb_spec g f) as [->|Hn].
+      + rewrite Hm. intros p. assert (data = []) as -> by (destruct data; auto; unfold lenZ in Hz; simpl in Hz; lia).
+        now rewrite store_write_nil.
+      + destruct (I g); auto.
+    - split; [left; split; [auto|congruence]|]. split; auto. intros _ _.
+      destruct Hcase as [[Hc ->]|(_ & _ & Hc & _)]; [|lia].
+      unfold flush_trigger in Hc. rewrite Hz in Hc. cbn [Z.eqb] in Hc. rewrite orb_true_r in Hc. cbn [andb] in Hc.
+      unfold s0 in Hc |- *. rewrite c_with_cache, W4 in *. rewrite Z.gtb_ltb in Hc. apply Z.ltb_ge in Hc. lia. }
+  assert (Hne : data <> []) by (intro; subst; unfold lenZ in Hnz; simpl in Hnz; lia).
+  destruct (fget s1 f) as [d|] eqn:Hd.
+  2: { apply Hdom0 in Hd. congruence. }
+  (* facts about the read buffer after the invalidation *)
+  assert (Hrd : last_rd_file (c_ s1) = f -> last_rd_block (c_ s1) < b \/ e < last_rd_block (c_ s1)).
+  { rewrite R2, R3. unfold s0. rewrite c_with_cache. intros. apply inval_rd_post; auto. }
+  destruct (Z.gtb_spec (lenZ data + o) BLK) as [Hlarge|Hsmall].
+  - (* large *)
+    cbn [fst snd].
+    assert (Hcl : flush_wr (c_ s1) <= 0).
+    { destruct Hcase as [[Hc ->]|(_ & _ & Hc & _)]; [|lia].
+      unfold flush_trigger in Hc. destruct (Z.gtb_spec (lenZ data + o) BLK); [|lia]. cbn [orb andb] in Hc.
+      destruct (Z.gtb_spec (flush_wr (c_ s0)) 0); [discriminate|lia]. }
+    split.
+    + apply large_write_inv; auto.
+      * intros [Hwf Hov]. pose proof (overlaps_between _ _ _ _ Ho Hl0 Hov) as Hbt. fold e in Hbt.
+        destruct Hcase as [[Hc ->]|(_ & Hdirty & _ & [[Hx _]|(Hx & Hy & Hz)])].
+        -- unfold s0 in Hwf, Hov, Hcl. rewrite c_with_cache, ?W2, ?W3, ?W4 in *.
+           destruct (Z.gtb_spec (lenZ data + o) BLK); [|lia].
+           destruct (Z.gtb_spec (flush_wr (c_ s)) 0); [lia|].
+           rewrite Hwf, Z.eqb_refl, Hov in Hhole. discriminate.
+        -- lia.
+        -- apply Hz. rewrite <- Hx, <- Hy. auto.
+      * intros [Hrf Hov]. pose proof (overlaps_between _ _ _ _ Ho Hl0 Hov) as Hbt. fold e in Hbt.
+        specialize (Hrd Hrf). lia.
+    + split; [left; split; [auto|congruence]|]. split; [|congruence].
+      intros g. rewrite fget_fset by lia. destruct (Z.eqb_spec g f) as [->|Hn]; [|apply Hdom0].
+      rewrite Hd0. split; discriminate.
+  - (* small: through the write buffer *)
+    cbn [fst snd].
+    assert (Hdirty : flush_wr (c_ s1) > 0 -> last_wr_block (c_ s1) = b /\ last_wr_file (c_ s1) = f).
+    { intros G. destruct Hcase as [[Hc ->]|(_ & _ & Hc & _)]; [|lia].
+      unfold flush_trigger in Hc. destruct (Z.gtb_spec (lenZ data + o) BLK); [lia|].
+      destruct (Z.eqb_spec (lenZ data) 0); [lia|].
+      destruct (Z.gtb_spec (flush_wr (c_ s0)) 0); [|lia]. rewrite andb_true_r in Hc.
+      destruct (Z.eqb_spec (last_wr_block (c_ s0)) b), (Z.eqb_spec (last_wr_file (c_ s0)) f);
+        simpl in Hc; try discriminate. auto. }
+    assert (Hrdn : ~ (last_rd_block (c_ s1) = b /\ last_rd_file (c_ s1) = f)).
+    { intros [Hx Hy]. specialize (Hrd Hy). lia. }
+    destruct (load_wr_buffer_inv s1 I f b d HI1 Hd Hb Hdirty Hrdn) as (HI2 & L1 & L2 & L3 & L4 & L5 & L6).
+    set (s2 := load_wr_buffer s1 d f b) in *.
+    assert (Hd2 : fget s2 f = Some d) by (unfold fget in *; rewrite L3; auto).
+    split.
+    + apply (put_wr_buffer_inv s2 I f b o data d m); auto; try lia;
+        try (intros [Hx Hy]; apply Hrdn; split; congruence).
+    + split; [left; split; [auto|congruence]|]. split; [|congruence].
+      intros g. rewrite fget_with_cache. unfold fget. rewrite L3. apply Hdom0.
+Qed.
+
+(* ------------------------------------------------------------------ ADFI_read_file *)
+Definition read_post (I : ideal) (f b o len : Z) (r : res) : Prop :=
+  match r with
+  | RBytes bs => I f <> None /\ lenZ bs = len /\
+                 forall i v, 0 <= i < len -> ideal_at I f (b * BLK + o + i) = Some v -> nth (Z.to_nat i) bs 0 = v
+  | RErr e => (I f = None /\ e = ADF_FILE_NOT_OPENED) \/
+              (I f <> None /\ e = FREAD_ERROR /\
+               (len = 0 \/ exists i, 0 <= i < len /\ ideal_at I f (b * BLK + o + i) = None))
+  | RUnit => False
+  end.
+
+(* what a state with an identified read buffer on (b, f) answers *)
+Lemma read_from_rd_buffer s I f b o len m :
+  Inv s I -> I f = Some m -> last_rd_block (c_ s) = b -> last_rd_file (c_ s) = f ->
+  0 <= o -> 0 <= len -> len + o <= BLK ->
+  read_post I f b o len (RBytes (bufsub (rd_buf (c_ s)) o len)).
+Proof.
+  intros HI Hm Hb Hf Ho Hl Hfit. pose proof BLK_val as HB. cbn [read_post].
+  split; [congruence|]. split.
+  - apply bufsub_length; auto. rewrite (inv_rdlen _ _ HI). lia.
+  - intros i v Hi Hv. unfold ideal_at in Hv. rewrite Hm in Hv.
+    rewrite nth_bufsub by lia.
+    assert (Hblk : in_blk (last_rd_block (c_ s)) (b * BLK + o + i)) by (unfold in_blk; lia).
+    rewrite <- Hf in Hm.
+    destruct (inv_rd _ _ HI m _ v Hm Hblk Hv) as [_ Hn]. rewrite <- Hn. f_equal. lia.
+Qed.
+
+Lemma bufput_nil buf : bufput buf 0 [] = buf.
+Proof. unfold bufput. simpl. reflexivity. Qed.
+
+Lemma read_file_inv s I f b o len :
+  Inv s I -> safe_step s (ORead f b o len) = true ->
+  Inv (snd (read_file s f b o len)) I /\ read_post I f b o len (fst (read_file s f b o len)) /\
+  files (snd (read_file s f b o len)) = files s.
+Proof.
+  intros HI Hsafe. pose proof BLK_val as HB.
+  cbn [safe_step] in Hsafe. apply andb_true_iff in Hsafe. destruct Hsafe as [Hsafe Hhole].
+  apply andb_true_iff in Hsafe. destruct Hsafe as [Hsafe Hl]. apply Z.leb_le in Hl.
+  apply andb_true_iff in Hsafe. destruct Hsafe as [Hb Ho]. apply Z.leb_le in Hb. apply Z.leb_le in Ho.
+  unfold read_file.
+  destruct (fget s f) as [d|] eqn:Hd.
+  2: { assert (Hn : I f = None) by (now apply (inv_open _ _ HI)). cbn. auto. }
+  pose proof (fget_nonneg _ _ _ Hd) as Hf.
+  destruct (I f) as [m|] eqn:Hm.
+  2: { apply (inv_open _ _ HI) in Hm. congruence. }
+  set (p0 := b * BLK + o). assert (Hp0 : 0 <= p0) by (unfold p0; lia).
+  (* a byte of the ideal store that is not under a dirty write block of f is in the file *)
+  assert (Hondisk : forall p v, m p = Some v ->
+            ~ (flush_wr (c_ s) > 0 /\ last_wr_file (c_ s) = f /\ in_blk (last_wr_block (c_ s)) p) ->
+            p < dlen d /\ dnth d p = v).
+  { intros p v Hp Hnd. destruct (inv_disk _ _ HI f m d p v Hm Hd Hp) as [_ [Hx|Hx]]; tauto. }
+  destruct (Z.gtb_spec (len + o) BLK) as [Hlarge|Hsmall].
+  - (* large: straight from the file *)
+    assert (Hnodirty : forall i, 0 <= i < len ->
+              ~ (flush_wr (c_ s) > 0 /\ last_wr_file (c_ s) = f /\ in_blk (last_wr_block (c_ s)) (p0 + i))).
+    { intros i Hi (G & Hwf & Hblk).
+      destruct (Z.gtb_spec (len + o) BLK); [|lia]. destruct (Z.gtb_spec (flush_wr (c_ s)) 0); [|lia].
+      rewrite Hwf, Z.eqb_refl in Hhole. fold p0 in Hhole.
+      rewrite (in_blk_overlaps _ (p0 + i) p0 len) in Hhole; [discriminate|auto|lia]. }
+    pose proof (pread_len d p0 len) as Hpl.
+    destruct (Z.eqb_spec (lenZ (pread d p0 len)) len) as [Hfull|Hshort]; cbn [fst snd].
+    + split; auto. split; auto. cbn [read_post]. split; [congruence|]. split; auto.
+      intros i v Hi Hv. unfold ideal_at in Hv. rewrite Hm in Hv. fold p0 in Hv.
+      destruct (Hondisk _ _ Hv (Hnodirty i Hi)) as [_ Hv']. rewrite nth_pread by lia. auto.
+    + split; auto. split; auto. cbn [read_post]. right. split; [congruence|]. split; auto.
+      destruct (Z.eq_dec len 0) as [|Hnz]; [left; auto|right].
+      exists (Z.max 0 (dlen d - p0)). split; [lia|].
+      unfold ideal_at. rewrite Hm. fold p0. destruct (m (p0 + Z.max 0 (dlen d - p0))) as [v|] eqn:Hv; auto.
+      assert (Hi : 0 <= Z.max 0 (dlen d - p0) < len) by lia.
+      destruct (Hondisk _ _ Hv (Hnodirty _ Hi)). lia.
+  - (* small: through the read buffer *)
+    assert (Hpost : forall s', Inv s' I -> last_rd_block (c_ s') = b -> last_rd_file (c_ s') = f ->
+              read_post I f b o len (RBytes (bufsub (rd_buf (c_ s')) o len))).
+    { intros. eapply read_from_rd_buffer; eauto; lia. }
+    destruct ((num_in_rd (c_ s) <? BLK) || negb (b =? last_rd_block (c_ s)) || negb (f =? last_rd_file (c_ s))) eqn:Ecur.
+    2: { (* the buffer is current *)
+         apply orb_false_iff in Ecur. destruct Ecur as [Ecur E3]. apply orb_false_iff in Ecur. destruct Ecur as [E1 E2].
+         apply negb_false_iff in E2, E3. apply Z.eqb_eq in E2, E3. cbn [fst snd]. split; auto. }
+    destruct ((b =? last_wr_block (c_ s)) && (f =? last_wr_file (c_ s))) eqn:Ewr.
+    + (* served from the write buffer *)
+      apply andb_true_iff in Ewr. destruct Ewr as [E1 E2]. apply Z.eqb_eq in E1, E2.
+      cbn [fst snd].
+      assert (HI' : Inv (with_cache s (set_rd_id (set_rd_buf (c_ s) (wr_buf (c_ s))) b f BLK)) I).
+      { destruct HI as [H1 H2 H3 H4 H5 H6 H7 H8 H9].
+        constructor; cbn [c_ with_cache set_rd_id set_rd_buf last_wr_block last_wr_file flush_wr last_rd_block
+                          last_rd_file rd_buf wr_buf num_in_rd files]; auto.
+        - intros m' p v Hm' Hblk Hp. split; [unfold in_blk in Hblk; lia|].
+          rewrite E1 in *. apply (H5 m' p v); auto. now rewrite <- E2.
+        - intros _. unfold fget in *. cbn [files with_cache]. rewrite Hd. discriminate. }
+      split; auto. split; [exact (Hpost _ HI' eq_refl eq_refl)|reflexivity].
+    + (* loaded from the file *)
+      assert (Hnw : ~ (last_wr_block (c_ s) = b /\ last_wr_file (c_ s) = f)).
+      { intros [X Y]. rewrite X, Y, !Z.eqb_refl in Ewr. discriminate. }
+      set (bytes := pread d (b * BLK) BLK).
+      assert (Hbl : lenZ bytes = Z.max 0 (Z.min BLK (dlen d - b * BLK))) by apply pread_len.
+      assert (Hblk_disk : forall p v, m p = Some v -> in_blk b p -> p < dlen d /\ dnth d p = v).
+      { intros p v Hp Hblk. apply Hondisk; auto. intros (_ & Y & Z). apply Hnw. split; auto.
+        unfold in_blk in *. lia. }
+      destruct (Z.leb_spec (lenZ bytes) 0) as [Hempty|Hgot]; cbn [fst snd].
+      * assert (bytes = []) as Hnil by (destruct bytes; auto; unfold lenZ in Hempty; simpl in Hempty; lia).
+        rewrite Hnil, bufput_nil.
+        split; [destruct s as [fs c]; destruct c; exact HI|].
+        split; [|reflexivity]. cbn [read_post]. right. split; [congruence|]. split; auto.
+        destruct (Z.eq_dec len 0) as [|Hnz]; [left; auto|right]. exists 0. split; [lia|].
+        unfold ideal_at. rewrite Hm. destruct (m (b * BLK + o + 0)) as [v|] eqn:Hv; auto.
+        destruct (Hblk_disk _ _ Hv ltac:(unfold in_blk; lia)). lia.
+      * assert (Hfits : (Z.to_nat 0 + length bytes <= length (rd_buf (c_ s)))%nat)
+          by (rewrite (inv_rdlen _ _ HI); unfold lenZ in *; lia).
+        assert (HI' : Inv (with_cache s (set_rd_id (set_rd_buf (c_ s) (bufput (rd_buf (c_ s)) 0 bytes)) b f (lenZ bytes))) I).
+        { destruct HI as [H1 H2 H3 H4 H5 H6 H7 H8 H9].
+          constructor; cbn [c_ with_cache set_rd_id set_rd_buf last_wr_block last_wr_file flush_wr last_rd_block
+                            last_rd_file rd_buf wr_buf num_in_rd files]; auto.
+          - rewrite bufput_length; auto. lia.
+          - intros m' p v Hm' Hblk Hp. rewrite Hm in Hm'. inversion Hm'; subst m'.
+            destruct (Hblk_disk _ _ Hp Hblk) as [Hlt Hv]. unfold in_blk in Hblk.
+            split; [lia|]. rewrite nth_bufput by (auto; lia).
+            destruct (Nat.leb_spec (Z.to_nat 0) (Z.to_nat (p - b * BLK))); [|lia].
+            destruct (Nat.ltb_spec (Z.to_nat (p - b * BLK)) (Z.to_nat 0 + length bytes)); [|unfold lenZ in *; lia].
+            cbn [andb]. replace (Z.to_nat (p - b * BLK) - Z.to_nat 0)%nat with (Z.to_nat (p - b * BLK)) by lia.
+            unfold bytes. rewrite nth_pread by (fold bytes; lia). rewrite <- Hv. f_equal. lia.
+          - intros _. unfold fget in *. cbn [files with_cache]. rewrite Hd. discriminate. }
+        split; auto. split; [exact (Hpost _ HI' eq_refl eq_refl)|reflexivity].
+Qed.
+
+(* ------------------------------------------------------------------ ADFI_flush_buffers, open, close *)
+Definition disk_agrees (s : st) (I : ideal) (f : Z) : Prop :=
+  forall m d p v, I f = Some m -> fget s f = Some d -> m p = Some v -> 0 <= p < dlen d /\ dnth d p = v.
+
+Lemma safe_flush_write s f : safe_step s (OWrite f MAXIMUM_32_BITS 0 []) = true.
+Proof.
+  cbn [safe_step]. unfold lenZ. simpl length. rewrite BLK_val. reflexivity.
+Qed.
+
+Lemma ideal_step_write_nil I f b o : ideal_eq (ideal_step I (OWrite f b o [])) I.
+Proof.
+  intros g. cbn [ideal_step]. destruct (I f) as [m|] eqn:Hm.
+  - unfold iupd. destruct (Z.eqb_spec g f) as [->|Hn].
+    + rewrite Hm. intros p. apply store_write_nil.
+    + destruct (I g); auto.
+  - destruct (I g); auto.
+Qed.
+
+Lemma clean_disk_agrees s I f : Inv s I -> (flush_wr (c_ s) <= 0 \/ last_wr_file (c_ s) <> f) -> disk_agrees s I f.
+Proof.
+  intros HI Hc m d p v Hm Hd Hp.
+  destruct (inv_disk _ _ HI f m d p v Hm Hd Hp) as [Hp0 [(X & Y & _)|[Hl Hv]]]; [lia|]. split; auto.
+Qed.
+
+Lemma flush_buffers_inv s I f close : Inv s I ->
+  Inv (snd (flush_buffers s f close)) I /\
+  (forall g, fget (snd (flush_buffers s f close)) g = None <-> fget s g = None) /\
+  ((fst (flush_buffers s f close) = RUnit /\ I f <> None /\ disk_agrees (snd (flush_buffers s f close)) I f /\
+    (close = true -> last_wr_file (c_ (snd (flush_buffers s f close))) <> f /\
+                     last_rd_file (c_ (snd (flush_buffers s f close))) <> f)) \/
+   (fst (flush_buffers s f close) = RErr ADF_FILE_NOT_OPENED /\ I f = None /\ snd (flush_buffers s f close) = s)).
+Proof.
+  intros HI. unfold flush_buffers.
+  destruct (fget s f) as [d|] eqn:Hd.
+  2: { cbn [fst snd]. split; auto. split; [tauto|]. right. split; [reflexivity|]. split; [now apply (inv_open _ _ HI)|reflexivity]. }
+  pose proof (fget_nonneg _ _ _ Hd) as Hf.
+  assert (Hm : I f <> None) by (intro X; apply (inv_open _ _ HI) in X; congruence).
+  (* the write-buffer half *)
+  assert (Hwr : exists r1 s1,
+     (let '(r, s1) := if f =? last_wr_file (c_ s)
+        then let '(r, s1) := write_file s f MAXIMUM_32_BITS 0 [] in
+             (r, if close then with_cache s1 (set_flush (set_wr_id (c_ s1) (-2) (-2)) (-2)) else s1)
+        else (RUnit, s) in
+      (r, if (f =? last_rd_file (c_ s1)) && close then with_cache s1 (reset_rd (c_ s1)) else s1)) =
+     (r1, if (f =? last_rd_file (c_ s1)) && close then with_cache s1 (reset_rd (c_ s1)) else s1) /\
+     r1 = RUnit /\ Inv s1 I /\ (forall g, fget s1 g = None <-> fget s g = None) /\
+     (flush_wr (c_ s1) <= 0 \/ last_wr_file (c_ s1) <> f) /\
+     (close = true -> last_wr_file (c_ s1) <> f)).
+  { destruct (Z.eqb_spec f (last_wr_file (c_ s))) as [E|E].
+    - pose proof (write_file_inv s I f MAXIMUM_32_BITS 0 [] HI (safe_flush_write s f)) as (W1 & W2 & W3 & W4).
+      destruct (write_file s f MAXIMUM_32_BITS 0 []) as [r s1] eqn:Ew. cbn [fst snd] in *.
+      assert (HI1 : Inv s1 I) by (eapply Inv_ext; [apply ideal_step_write_nil|exact W1]).
+      assert (Hcl : flush_wr (c_ s1) <= 0) by (apply W4; [auto|congruence]).
+      assert (Hr : r = RUnit) by (destruct W2 as [[X _]|[_ X]]; [auto|congruence]).
+      destruct close.
+      + eexists _, _. split; [reflexivity|]. split; auto.
+        split; [now apply reset_wr_inv|]. split; [intros g; rewrite fget_with_cache; apply W3|].
+        cbn. split; [left; lia|intros _; lia].
+      + eexists _, _. split; [reflexivity|]. split; auto. split; auto. split; auto. split; [auto|discriminate].
+    - eexists _, _. split; [reflexivity|]. split; auto. split; auto. split; [tauto|]. split; [right; congruence|congruence]. }
+  destruct Hwr as (r1 & s1 & Heq & Hr & HI1 & Hdom & Hcl & Hcw). rewrite Heq. cbn [fst snd]. subst r1.
+  destruct ((f =? last_rd_file (c_ s1)) && close) eqn:Er.
+  - apply andb_true_iff in Er. destruct Er as [_ ->].
+    pose proof (reset_rd_inv _ _ HI1) as HI2.
+    split; auto. split; [intros g; rewrite fget_with_cache; apply Hdom|]. left. split; auto. split; auto.
+    split.
+    + apply clean_disk_agrees; auto.
+    + intros _. cbn. split; [apply Hcw; auto|lia].
+  - split; auto. split; auto. left. split; auto. split; auto. split; [apply clean_disk_agrees; auto|].
+    intros ->. split; auto. rewrite andb_true_r in Er. apply Z.eqb_neq in Er. congruence.
+Qed.
+
+Lemma open_inv s I f d : Inv s I -> fget s f = None -> 0 <= f ->
+  Inv (fset s f d) (iupd I f (Some (store_of_disk d))).
+Proof.
+  intros HI Hn Hf.
+  assert (Hfg : forall g, fget (fset s f d) g = if g =? f then Some d else fget s g) by (intros; now apply fget_fset).
+  assert (Hwf : last_wr_file (c_ s) <> f).
+  { intros E. destruct (inv_wr_use _ _ HI ltac:(lia)) as [X _]. congruence. }
+  assert (Hrf : last_rd_file (c_ s) <> f).
+  { intros E. pose proof (inv_rd_use _ _ HI ltac:(lia)) as X. congruence. }
+  destruct HI as [H1 H2 H3 H4 H5 H6 H7 H8 H9].
+  constructor; rewrite ?c_fset; auto.
+  - intros g. rewrite Hfg. destruct (Z.eqb_spec g f) as [->|Hne].
+    + rewrite iupd_same. split; discriminate.
+    + rewrite iupd_other by auto. apply H1.
+  - intros g m d' p v Hm Hg Hp. rewrite Hfg in Hg. destruct (Z.eqb_spec g f) as [->|Hne].
+    + rewrite iupd_same in Hm. inversion Hm; subst m. inversion Hg; subst d'. unfold store_of_disk in Hp.
+      destruct (Z.leb_spec 0 p), (Z.ltb_spec p (dlen d)); simpl in Hp; try discriminate.
+      inversion Hp. split; auto.
+    + rewrite iupd_other in Hm by auto. eauto.
+  - intros m p v Hm. rewrite iupd_other in Hm by auto. eauto.
+  - intros m p v Hm. rewrite iupd_other in Hm by auto. eauto.
+  - intros H0. destruct (H8 H0) as [X Y]. split; auto. rewrite Hfg.
+    destruct (Z.eqb_spec (last_wr_file (c_ s)) f); [discriminate|auto].
+  - intros H0. rewrite Hfg. destruct (Z.eqb_spec (last_rd_file (c_ s)) f); [discriminate|auto].
+Qed.
+
+Lemma close_inv s I f : Inv s I -> 0 <= f -> last_wr_file (c_ s) <> f -> last_rd_file (c_ s) <> f ->
+  Inv (fdel s f) (iupd I f None).
+Proof.
+  intros HI Hf Hwf Hrf.
+  assert (Hfg : forall g, fget (fdel s f) g = if g =? f then None else fget s g) by (intros; now apply fget_fdel).
+  destruct HI as [H1 H2 H3 H4 H5 H6 H7 H8 H9].
+  constructor; rewrite ?c_fdel; auto.
+  - intros g. rewrite Hfg. destruct (Z.eqb_spec g f) as [->|Hne].
+    + rewrite iupd_same. tauto.
+    + rewrite iupd_other by auto. apply H1.
+  - intros g m d' p v Hm Hg Hp. rewrite Hfg in Hg. destruct (Z.eqb_spec g f) as [->|Hne]; [discriminate|].
+    rewrite iupd_other in Hm by auto. eauto.
+  - intros m p v Hm. rewrite iupd_other in Hm by auto. eauto.
+  - intros m p v Hm. rewrite iupd_other in Hm by auto. eauto.
+  - intros H0. destruct (H8 H0) as [X Y]. split; auto. rewrite Hfg.
+    destruct (Z.eqb_spec (last_wr_file (c_ s)) f); [congruence|auto].
+  - intros H0. rewrite Hfg. destruct (Z.eqb_spec (last_rd_file (c_ s)) f); [congruence|auto].
+Qed.
+
+(* ------------------------------------------------------------------ one step *)
+Definition good_step (I : ideal) (s : st) (p : op) (r : res) (s' : st) : Prop :=
+  match p with
+  | ORead f b o len => read_post I f b o len r
+  | OWrite f b o data => write_post I f r
+  | OFlush f | OFlushClose f =>
+      (r = RUnit /\ I f <> None /\ disk_agrees s' I f) \/ (r = RErr ADF_FILE_NOT_OPENED /\ I f = None)
+  | OClose f =>
+      (r = RUnit /\ I f <> None /\ disk_agrees (snd (flush_buffers s f true)) I f /\
+       s' = fdel (snd (flush_buffers s f true)) f) \/
+      (r = RErr ADF_FILE_NOT_OPENED /\ I f = None)
+  | OOpen f d => (r = RUnit /\ I f = None /\ 0 <= f) \/ (r = RErr FILE_OPEN_ERROR /\ (I f <> None \/ f < 0))
+  end.
+
+Lemma step_inv s I p : Inv s I -> safe_step s p = true ->
+  Inv (snd (step s p)) (ideal_step I p) /\ good_step I s p (fst (step s p)) (snd (step s p)).
+Proof.
+  intros HI Hsafe. destruct p as [f d|f b o len|f b o data|f|f|f]; cbn [step ideal_step good_step].
+  - (* open *)
+    destruct (fget s f) as [d0|] eqn:Hd.
+    + assert (Hm : I f <> None) by (intro X; apply (inv_open _ _ HI) in X; congruence).
+      pose proof (fget_nonneg _ _ _ Hd). destruct (Z.ltb_spec f 0); [lia|].
+      destruct (I f); [|congruence]. cbn [fst snd]. split; auto; right; split; auto; left; discriminate.
+    + assert (Hm : I f = None) by (now apply (inv_open _ _ HI)).
+      destruct (Z.ltb_spec f 0); cbn [fst snd].
+      * split; auto.
+      * rewrite Hm. split; [now apply open_inv|auto].
+  - destruct (read_file_inv s I f b o len HI Hsafe) as (X & Y & _). auto.
+  - destruct (write_file_inv s I f b o data HI Hsafe) as (X & Y & _). auto.
+  - destruct (flush_buffers_inv s I f false HI) as (X & _ & [(Y1 & Y2 & Y3 & _)|(Y1 & Y2 & _)]); split; auto.
+  - destruct (flush_buffers_inv s I f true HI) as (X & _ & [(Y1 & Y2 & Y3 & _)|(Y1 & Y2 & _)]); split; auto.
+  - destruct (fget s f) as [d0|] eqn:Hd.
+    + pose proof (fget_nonneg _ _ _ Hd) as Hf.
+      destruct (flush_buffers_inv s I f true HI) as (X & _ & [(Y1 & Y2 & Y3 & Y4)|(Y1 & Y2 & _)]).
+      * destruct (Y4 eq_refl) as [Z1 Z2].
+        destruct (flush_buffers s f true) as [r s1] eqn:E. cbn [fst snd] in *. subst r.
+        split; [now apply close_inv|]. left. auto.
+      * apply (inv_open _ _ HI) in Y2. congruence.
+    + assert (Hm : I f = None) by (now apply (inv_open _ _ HI)). cbn [fst snd]. split; [|right; auto].
+      eapply Inv_ext; [|exact HI]. intros g. unfold iupd. destruct (Z.eqb_spec g f) as [->|]; [rewrite Hm; auto|].
+      destruct (I g); auto.
+Qed.
+
+(* ------------------------------------------------------------------ histories *)
+Lemma exec_app : forall a s b, exec s (a ++ b) = exec (exec s a) b.
+Proof. induction a; intros; simpl; auto. Qed.
+Lemma ideal_exec_app : forall a I b, ideal_exec I (a ++ b) = ideal_exec (ideal_exec I a) b.
+Proof. induction a; intros; simpl; auto. Qed.
+Lemma safe_hist_app : forall a s b, safe_hist s (a ++ b) = safe_hist s a && safe_hist (exec s a) b.
+Proof. induction a; intros; simpl; auto. rewrite IHa. now rewrite andb_assoc. Qed.
+
+Lemma hist_inv : forall ops s I, Inv s I -> safe_hist s ops = true -> Inv (exec s ops) (ideal_exec I ops).
+Proof.
+  induction ops as [|p r IH]; intros s I HI Hs; simpl; auto.
+  simpl in Hs. apply andb_true_iff in Hs. destruct Hs as [H1 H2].
+  apply IH; auto. apply step_inv; auto.
+Qed.
+
+Theorem cache_coherent : forall pre p,
+  safe_hist init_st (pre ++ [p]) = true ->
+  good_step (ideal_exec ideal0 pre) (exec init_st pre) p
+            (fst (step (exec init_st pre) p)) (snd (step (exec init_st pre) p)).
+Proof.
+  intros pre p Hs. rewrite safe_hist_app in Hs. apply andb_true_iff in Hs. destruct Hs as [H1 H2].
+  simpl in H2. rewrite andb_true_r in H2.
+  apply step_inv; auto. apply hist_inv; auto. apply init_inv.
+Qed.
+
+(* ------------------------------------------------------------------ the two holes *)
+Definition nines : list Z := repeat 9 5000.
+Definition wit_hole1 : list op :=
+  [OOpen 0 (disk_of_list []); OWrite 0 0 0 [7]; OFlush 0; OWrite 0 0 0 nines].
+Definition wit_hole2 : list op :=
+  [OOpen 0 (disk_of_list (repeat 1 5000)); OWrite 0 0 0 [7]].
+
+Fixpoint safe_flags (s : st) (ops : list op) : list bool :=
+  match ops with [] => [] | p :: r => safe_step s p :: safe_flags (snd (step s p)) r end.
+
+Theorem cache_unsafe_refuted :
+  (* hole 1: small write, flush, LARGE write over the clean but still identified buffer, small read: stale *)
+  (safe_flags init_st (wit_hole1 ++ [ORead 0 0 0 1]) = [true; true; true; false; true] /\
+   fst (step (exec init_st wit_hole1) (ORead 0 0 0 1)) = RBytes [7] /\
+   ideal_at (ideal_exec ideal0 wit_hole1) 0 0 = Some 9) /\
+  (* hole 2: small write (pending in the buffer), LARGE read of the same block: the file's old byte *)
+  (safe_flags init_st (wit_hole2 ++ [ORead 0 0 0 5000]) = [true; true; false] /\
+   (exists bs, fst (step (exec init_st wit_hole2) (ORead 0 0 0 5000)) = RBytes bs /\ nth 0 bs 0 = 1) /\
+   ideal_at (ideal_exec ideal0 wit_hole2) 0 0 = Some 7).
+Proof.
+  split.
+  - split; [vm_compute; reflexivity|]. split; vm_compute; reflexivity.
+  - split; [vm_compute; reflexivity|]. split; [|vm_compute; reflexivity].
+    eexists. split; [vm_compute; reflexivity|]. reflexivity.
+Qed.
+
+(* ------------------------------------------------------------------ files are independent *)
+Definition same_at (f : Z) (I J : ideal) : Prop :=
+  match I f, J f with
+  | Some m, Some m' => forall p, m p = m' p
+  | None, None => True
+  | _, _ => False
+  end.
+
+Lemma ideal_step_same f I J p : same_at f I J -> op_file p = f -> same_at f (ideal_step I p) (ideal_step J p).
+Proof.
+  unfold same_at. intros H E. destruct p as [g d|g b o len|g b o data|g|g|g]; cbn [op_file] in E; subst g;
+    cbn [ideal_step]; auto.
+  - destruct (f <? 0); auto. destruct (I f), (J f); try tauto; auto. now rewrite !iupd_same.
+  - destruct (I f) as [m|], (J f) as [m'|]; try tauto. rewrite !iupd_same. intros p. unfold store_write.
+    destruct (_ && _); auto.
+  - now rewrite !iupd_same.
+Qed.
+Lemma ideal_step_other f I p : op_file p <> f -> ideal_step I p f = I f.
+Proof.
+  intros E. destruct p as [g d|g b o len|g b o data|g|g|g]; cbn [op_file] in E; cbn [ideal_step]; auto.
+  - destruct (g <? 0); auto. destruct (I g); auto. now rewrite iupd_other by auto.
+  - destruct (I g); auto. now rewrite iupd_other by auto.
+  - now rewrite iupd_other by auto.
+Qed.
+
+Lemma ideal_exec_proj f : forall ops I J, same_at f I J -> same_at f (ideal_exec I ops) (ideal_exec J (proj f ops)).
+Proof.
+  induction ops as [|p r IH]; intros I J H; simpl; auto.
+  destruct (Z.eqb_spec (op_file p) f) as [E|E]; simpl.
+  - apply IH. now apply ideal_step_same.
+  - apply IH. unfold same_at in *. now rewrite ideal_step_other.
+Qed.
+
+Lemma same_at_refl f I : same_at f I I.
+Proof. unfold same_at. destruct (I f); auto. Qed.
+
+Lemma same_at_ideal_at f I J p : same_at f I J -> ideal_at I f p = ideal_at J f p.
+Proof. unfold same_at, ideal_at. destruct (I f), (J f); try tauto. auto. Qed.
+
+(* what file f holds is a function of f's own sub-history; hence two safe histories with the same sub-history on f
+   give every read of f the same answer wherever the ideal store defines it *)
+Theorem cache_files_independent : forall f h1 h2 b o len,
+  proj f h1 = proj f h2 ->
+  safe_hist init_st (h1 ++ [ORead f b o len]) = true ->
+  safe_hist init_st (h2 ++ [ORead f b o len]) = true ->
+  (forall p, ideal_at (ideal_exec ideal0 h1) f p = ideal_at (ideal_exec ideal0 (proj f h1)) f p) /\
+  read_post (ideal_exec ideal0 (proj f h1)) f b o len (fst (step (exec init_st h1) (ORead f b o len))) /\
+  read_post (ideal_exec ideal0 (proj f h1)) f b o len (fst (step (exec init_st h2) (ORead f b o len))).
+Proof.
+  intros f h1 h2 b o len Hp S1 S2.
+  pose proof (ideal_exec_proj f h1 ideal0 ideal0 (same_at_refl f ideal0)) as E1.
+  pose proof (ideal_exec_proj f h2 ideal0 ideal0 (same_at_refl f ideal0)) as E2.
+  rewrite <- Hp in E2.
+  assert (Hpost : forall I J r, same_at f I J -> read_post I f b o len r -> read_post J f b o len r).
+  { intros I J r HS. unfold read_post. pose proof (same_at_ideal_at f I J) as Hat.
+    assert (Hn : I f = None <-> J f = None) by (unfold same_at in HS; destruct (I f), (J f); try tauto; split; discriminate).
+    destruct r; auto.
+    - intros (A & B & C). split; [tauto|]. split; auto. intros i v Hi Hv. apply C; auto. rewrite Hat; auto.
+    - intros [[A B]|(A & B & C)]; [left; tauto|right]. split; [tauto|]. split; auto.
+      destruct C as [C|(i & Hi & C)]; [left; auto|right]. exists i. split; auto. rewrite <- Hat; auto. }
+  split; [intros p; now apply same_at_ideal_at|].
+  split.
+  - eapply Hpost; [exact E1|]. apply (cache_coherent h1 (ORead f b o len) S1).
+  - eapply Hpost; [exact E2|]. apply (cache_coherent h2 (ORead f b o len) S2).
 Qed.
